@@ -163,4 +163,97 @@ example : (rerun2 Core.aliasCfg Core.rr2Trigs Core.rr2G).obs = (runG2 Core.alias
 /-- the older order (reset on entry only) would leave object 7 silent in the second run -/
 example : (rerun2ResetBeforeInit Core.aliasCfg Core.rr2Trigs Core.rr2G).trace.filterMap fireOfEv = [⟨0, 0, ""⟩, ⟨120, 0, ""⟩] := by decide
 
+/-! ### the older model (reset when `run` is entered) as a corollary -/
+
+namespace Core
+
+/-- a statement that does not touch `strategy.triggers` -/
+def HStmt.noTrig : HStmt → Prop
+  | .tadd _ => False
+  | .tdel _ => False
+  | _ => True
+
+theorem sameStmt_refl : ∀ s : HStmt, SameStmt s s
+  | .op _ => rfl
+  | .tadd _ => rfl
+  | .tdel _ => rfl
+  | .boom _ => rfl
+
+theorem sameBody_refl : ∀ b : List HStmt, SameBody b b
+  | [] => trivial
+  | s :: b => ⟨sameStmt_refl s, sameBody_refl b⟩
+
+theorem runStmts_noTrig (X : List Trig) (ts : Int) (h : Hook) : ∀ (body : List HStmt), (∀ s ∈ body, s.noTrig) →
+    Pres (fun st => st.trigs = X) (runStmts ts h body)
+  | [], _ => fun _ h => h
+  | s :: ss, hb => fun st hinv => by
+    simp only [runStmts]
+    refine Pres.andThen (P := fun st => st.trigs = X) ?_ (runStmts_noTrig X ts h ss (fun x hx => hb x (List.mem_cons_of_mem _ hx)))
+    have hs := hb s (List.mem_cons_self ..)
+    cases s with
+    | op o => show (doOp ts h o st).2.trigs = X; rw [doOp_trigs]; exact hinv
+    | tadd t => exact absurd hs (by simp [HStmt.noTrig])
+    | tdel i => exact absurd hs (by simp [HStmt.noTrig])
+    | boom e => exact hinv
+
+end Core
+
+/-- **the older model as a corollary.**  When `initialize()` does not touch `strategy.triggers` (it trades, or raises), resetting the triggers
+    after it is resetting them before it: `runG2` shows what `actuatorRunG` (Demeter/Actuator/Hooks.lean: reset when `run` is entered) shows —
+    so every theorem about `actuatorRunG` / `actuatorRun` (C05, C18, Proofs/C02/Rerun.lean) is a theorem about the code's order for such
+    strategies. -/
+theorem C02_run2_is_reset_on_entry_when_initialize_installs_nothing (cfg : Cfg) (trigs : List Trig) (g : GScript)
+    (h : ∀ s ∈ g.init, s.noTrig) : (runG2 cfg trigs g).obs = (actuatorRunG cfg trigs g).obs := by
+  have hs : startTrigs trigs = trigs.map Trig.reset := by
+    unfold startTrigs; rw [C02_source_saves_trigger_list_by_copy.2.1]; rfl
+  unfold actuatorRunG
+  rw [hs]
+  unfold runG2 runG RunResult.obs
+  cases checkBacktest cfg with
+  | some e => rfl
+  | none =>
+    dsimp only
+    cases barIndex cfg with
+    | nil => rfl
+    | cons ts0 bars =>
+      dsimp only
+      cases priceAt cfg ts0 with
+      | none => rfl
+      | some pr =>
+        dsimp only
+        obtain ⟨h1, h2, h3⟩ := initG_same cfg (trigs.map Trig.reset) trigs g g ts0 (rerun_map_reset_idem trigs) (sameBody_refl _)
+        unfold runCore2 runCore
+        cases hr : (initG cfg trigs g ts0).2.2 with
+        | some e =>
+          have hr' : (initG cfg (trigs.map Trig.reset) g ts0).2.2 = some e := by rw [h3, hr]
+          obtain ⟨q1, q2, q3, q4, q5⟩ := (resetTrigs_eq_iff _ _).mp h2
+          rw [Core.initG2_err hr]
+          simp only [hr, hr', h1, q3, q4, Bool.false_eq_true, if_false]
+        | none =>
+          have hr' : (initG cfg (trigs.map Trig.reset) g ts0).2.2 = none := by rw [h3, hr]
+          have htr : (initG cfg (trigs.map Trig.reset) g ts0).2.1.trigs = trigs.map Trig.reset := by
+            unfold initG
+            exact Pres.andThen (P := fun st => st.trigs = trigs.map Trig.reset) (r := Res.ok _ _) rfl (runStmts_noTrig _ ts0 .init g.init h)
+          have hfix : resetTrigs (initG cfg (trigs.map Trig.reset) g ts0).2.1 = (initG cfg (trigs.map Trig.reset) g ts0).2.1 := by
+            generalize (initG cfg (trigs.map Trig.reset) g ts0).2.1 = q at htr
+            cases q
+            simp only [resetTrigs] at htr ⊢
+            rw [htr, rerun_map_reset_idem]
+          have heq : initG2 cfg trigs g ts0 = initG cfg (trigs.map Trig.reset) g ts0 := by
+            rw [Core.initG2_ok hr, ← h1, ← h2, hfix, ← hr']
+          rw [heq]
+          rfl
+
+/-- non-vacuity: a strategy whose `initialize()` trades and whose caller installed a period trigger -/
+def Core.oldG : GScript := { Core.aliasG with init := [.op ⟨0, true, "x", true⟩] }
+
+example : (runG2 Core.aliasCfg Core.rr2Trigs Core.oldG).obs = (actuatorRunG Core.aliasCfg Core.rr2Trigs Core.oldG).obs :=
+  C02_run2_is_reset_on_entry_when_initialize_installs_nothing _ _ _ (by
+    intro s hs
+    simp only [Core.oldG, List.mem_cons, List.not_mem_nil, or_false] at hs
+    subst hs
+    trivial)
+
+example : (runG2 Core.aliasCfg Core.rr2Trigs Core.oldG).trace.filterMap fireOfEv = [⟨0, 0, ""⟩, ⟨120, 0, ""⟩] := by decide
+
 end Demeter
